@@ -23,14 +23,25 @@ var solvers = []SolverCfg{
 	// E-matching only: answers in well under a second when triggers suffice, and
 	// gives up quickly (unknown) when they do not
 	{Name: "z3-new/ematch", Path: "z3-new", Args: func(t int) []string {
-		return []string{"-smt2", "-in", fmt.Sprintf("-T:%d", t), "smt.mbqi=false", "smt.auto_config=false"}
+		return []string{"-smt2", "-in", fmt.Sprintf("-T:%d", wallCap(t)), fmt.Sprintf("rlimit=%d", t*rlimitPerSecond), "smt.mbqi=false", "smt.auto_config=false"}
 	}},
-	{Name: "z3-new", Path: "z3-new", Args: func(t int) []string { return []string{"-smt2", "-in", fmt.Sprintf("-T:%d", t)} }},
-	{Name: "z3", Path: "z3", Args: func(t int) []string { return []string{"-smt2", "-in", fmt.Sprintf("-T:%d", t)} }},
+	{Name: "z3-new", Path: "z3-new", Args: func(t int) []string {
+		return []string{"-smt2", "-in", fmt.Sprintf("-T:%d", wallCap(t)), fmt.Sprintf("rlimit=%d", t*rlimitPerSecond)}
+	}},
+	{Name: "z3", Path: "z3", Args: func(t int) []string {
+		return []string{"-smt2", "-in", fmt.Sprintf("-T:%d", wallCap(t)), fmt.Sprintf("rlimit=%d", t*rlimitPerSecond)}
+	}},
 	{Name: "cvc5", Path: "cvc5", Args: func(t int) []string {
 		return []string{"--lang=smt2", fmt.Sprintf("--tlimit=%d", t*1000), "--produce-models", "--full-saturate-quant"}
 	}, Pre: "(set-logic ALL)\n"},
 }
+
+// The z3 budgets are resource limits, not seconds: rlimit counts solver steps, so the
+// verdict on an obligation does not depend on how busy the machine is (about 3 million
+// units are one second of an idle core here). The wall-clock limit is only a backstop.
+const rlimitPerSecond = 3000000
+
+func wallCap(t int) int { return 8*t + 20 }
 
 const maxQueryBytes = 400 * 1024
 
@@ -54,7 +65,7 @@ func (o *Obligation) Query(withModel bool) string {
 }
 
 func runSolver(s SolverCfg, query string, timeoutS int) (result string, out string, dur float64) {
-	ctx, cancel := context.WithTimeout(context.Background(), time.Duration(timeoutS+3)*time.Second)
+	ctx, cancel := context.WithTimeout(context.Background(), time.Duration(wallCap(timeoutS)+5)*time.Second)
 	defer cancel()
 	cmd := exec.CommandContext(ctx, s.Path, s.Args(timeoutS)...)
 	cmd.Stdin = strings.NewReader(s.Pre + query)
